@@ -51,7 +51,7 @@ def _install_meter():
                 _Meter.limit = None
                 raise Budget()
 
-    Node._Node__ID_COUNTER = Counter(0)
+    common.use_private_ids(0, Counter)
 
 
 def metered(fn, limit):
